@@ -184,6 +184,50 @@ def run(ctx):
             if mm != got: res.tie_break("dir.scan", case, got, mm)
     from adapters import strlib
     strlib.validate(ctx, res, routines=('lower', 'endswith'))
+    # whole trees: the pack and directory objects on a MemoryFS against the tree-level model (Model/Tree.lean, Model/Path.lean;
+    # theorems Props/C19Tree.lean: only immediate sub-directories that directly contain a simfile, never anything deeper)
+    import treegen, fs.path
+    from simfile.dir import SimfilePack as _Pack, SimfileDirectory as _Dir, DuplicateSimfileError as _Dup
+    treqs, tmetas = [], []
+    for i in range(ctx.scale(60, 800)):
+        root, pk = treegen.world(rng)
+        m = treegen.build(root); T = treegen.node(root)
+        pp = rng.choice(treegen.PACK_PATHS)
+        case = {"tree": root if len(str(root)) < 1500 else "(large)", "pack_path": pp}
+        res.case({"tree_case": case}, nontrivial=any(isinstance(v, dict) for v in pk.values())); res.traces += 1; res.count("tree_cases")
+        try: got = list(_Pack(pp, filesystem=m).simfile_dir_paths)
+        except Exception as e:
+            got = treegen.fs_err(e) or {"err": core.exc_name(e)}
+        treqs.append({"op": "tree.pack_dirs", "tree": T, "pack": pp}); tmetas.append(("tree.pack_dirs", case, got))
+        if isinstance(got, list):
+            # direct: exactly the immediate sub-directories that directly contain a simfile, in listing order
+            base = fs.path.normpath(pp)
+            exp = [fs.path.join(base, n) for n in m.listdir(base)
+                   if m.isdir(fs.path.join(base, n)) and any(x.lower().endswith((".sm", ".ssc")) for x in m.listdir(fs.path.join(base, n)))]
+            if got != exp:
+                res.violation(case, "a pack does not list exactly its immediate sub-directories that directly contain a simfile", impl=got, expected=exp); continue
+        songs = [k for k, v in pk.items() if isinstance(v, dict)]
+        sd = rng.choice(["/Songs/MyPack/" + s_ for s_ in songs] + ["/Songs/MyPack", "Songs/MyPack/./" + (songs[0] if songs else "x"), "/Songs/MyPack/loose.sm", "/a/../.."])
+        ign = rng.random() < .5
+        try:
+            o = _Dir(sd, filesystem=m, ignore_duplicate=ign); got = {"dir": o.simfile_dir, "sm": o.sm_path, "ssc": o.ssc_path}
+        except _Dup: got = "DuplicateSimfileError"
+        except Exception as e: got = treegen.fs_err(e) or {"err": core.exc_name(e)}
+        treqs.append({"op": "tree.dir", "tree": T, "path": sd, "ignore_duplicate": ign}); tmetas.append(("tree.dir", dict(case, dir=sd, ignore_duplicate=ign), got))
+        for pth in [pp, sd, rng.choice(["a//b/../c/", "/x/./y", "../z", "/..", "", "/", "a/b/", "//a"])]:
+            try: g1 = fs.path.normpath(pth)
+            except Exception as e: g1 = None
+            treqs.append({"op": "path.normpath", "p": pth}); tmetas.append(("path.normpath", {"p": pth}, g1))
+            g2 = list(fs.path.split(pth))
+            treqs.append({"op": "path.split", "p": pth}); tmetas.append(("path.split", {"p": pth}, g2))
+            other = rng.choice(["x.png", "Sub/x", "../y", "/abs", "", "."])
+            try: g3 = fs.path.join(pth, other)
+            except Exception as e: g3 = None
+            treqs.append({"op": "path.join", "a": pth, "b": other}); tmetas.append(("path.join", {"a": pth, "b": other}, g3))
+    for (stream, case, got), mm in zip(tmetas, ctx.lean.eval_sharded(treqs)):
+        res.traces += 1
+        if got != mm:
+            res.tie_break(stream, case, got, mm)
     res.assumptions = ["listdir/isdir semantics are the filesystem's; the real listing order is an input of the model",
                        "names are ASCII plus caseless CJK, so str.lower is within the modelled table"]
     return res
